@@ -88,6 +88,14 @@ def sym_eq(ex, a, b):
     if isinstance(a, Agg) and isinstance(b, Agg):
         if a.ty != b.ty or a.variant != b.variant or len(a.fields) != len(b.fields): return False
         if a.ty.endswith('units::unit::Unit'): return a is b or sym_eq(ex, a.fields[1], b.fields[1])
+        if a.ty == 'chrono::DateTime':
+            from .models_chrono import utc_secs, tz_fixed_offset
+            za, zb = a.fields[2], b.fields[2]
+            if za.ty != zb.ty or (za.ty == 'Tz' and za.fields[0] != zb.fields[0]): return False
+            inst = zand([sym_eq(ex, utc_secs(a), utc_secs(b)), sym_eq(ex, a.fields[0].fields[1].fields[3], b.fields[0].fields[1].fields[3])])
+            if za.ty == 'Tz' and tz_fixed_offset(za.fields[0]) is None:
+                return inst       # named zone: local fields follow from the instant through the IANA rules (outside the model)
+            return zand([inst, sym_eq(ex, a.fields[0], b.fields[0]), sym_eq(ex, a.fields[1], b.fields[1])])
         return zand(sym_eq(ex, p, q) for p, q in zip(a.fields, b.fields))
     if isinstance(a, str) or isinstance(b, str): return a == b
     if isinstance(a, (Agg, VecV, SliceRef)) or isinstance(b, (Agg, VecV, SliceRef)): return False
